@@ -257,7 +257,32 @@ def cmd_check(args):
         # non-verification errors (type errors, unsupported constructs, ...) => undecided
         hard = [d for d in res["diags"] if not d["verification_failure"] and not (d["info"].get("origin") == "<canary>")]
         if hard or res.get("vir_error"):
-            undecided.append(f"unit {un}: front-end / non-verification error: " + "; ".join(f"{d['message']} @gen:{d['gen_line']}" for d in hard[:5]) + ("" if hard else res.get("stderr_tail", "")[-600:]))
+            # The generated unit no longer passes Verus' front end.  If the offending construct sits inside an extracted
+            # function that serves this property, that function has left the verifier's reach: a BOUNDED stand-in (the
+            # deterministic probe search of the replay crate, run on the real compiled code against an oracle written
+            # from the property) is tried.  A counterexample found there is a violation (it is replayed on the real
+            # code); otherwise the check stays undecided.  Never counted as proved.
+            from vxlib import replay as _rp
+            hit_items = []
+            for d in hard:
+                if d["item"] is not None:
+                    it = meta["extracted"][d["item"]]
+                    modes = {p_.split(":")[0] for p_ in it["props"]}
+                    if pid in modes and it not in hit_items:
+                        hit_items.append(it)
+            found_any = False
+            for it in hit_items[:3]:
+                fin = _rp.run_probe(it["fn_name"])
+                bounded.append({"harness": f"probe::{it['fn_name']}", "bound": "deterministic probe grid of replay/src (see probe_*.rs)", "status": "failed" if fin else "no counterexample",
+                                "what": f"bounded stand-in: {it['file']} :: {it['sel']} uses a construct outside the verifier's reach ({hard[0]['message'][:120]})"})
+                if fin:
+                    found_any = True
+                    violations.append({"obligation": f"{un}::{it['fn_name']}" if not it["sel"].startswith("impl ") else f"{un}::<{it['sel'].split('::')[0].strip()[5:].strip()}>::{it['fn_name']}",
+                                       "kind": "function outside the verifier's reach (unsupported construct); bounded probe on the real code found a counterexample",
+                                       "where": f"{it['file']}:{it['src_lines'][0]}", "code": "", "verifier_output": "; ".join(d["message"] for d in hard[:3]),
+                                       "counterexample": fin, "item": it, "unit": un, "bounded": True})
+            if not found_any:
+                undecided.append(f"unit {un}: front-end / non-verification error: " + "; ".join(f"{d['message']} @gen:{d['gen_line']}" for d in hard[:5]) + ("" if hard else res.get("stderr_tail", "")[-600:]))
             continue
         # map failures
         fail_by_item = {}
@@ -410,7 +435,7 @@ def cmd_check(args):
     violations = list(merged.values())
     real_violations = []
     for v in violations:
-        if base and v["obligation"] not in base:
+        if base and v["obligation"] not in base and not v.get("bounded"):
             undecided.append(f"{v['obligation']} failed but is not in the committed baseline (never discharged on the unchanged tree): {v['kind']}")
             continue
         kf = [k for k in known if k["obligation"] == v["obligation"] and (k["input"] in (v.get("code") or "") or k["input"] in json.dumps(v.get("counterexample") or "") or k["input"] == v["where"])]
